@@ -2,6 +2,12 @@
 # Build the Lean library (models, proofs) and the compiled model drivers from the sources in lean/. Offline.
 set -e
 here="$(cd "$(dirname "$0")" && pwd)"
+PY=/venv/bin/python
+[ -x "$PY" ] || PY=python3
+# Regenerate lean/PyodaGen/*.lean (Lean definitions translated from the Python source of ${PYODA_REPO:-/repo},
+# tools/py2lean.py) for every property with a target list, so that the agreement theorems
+# PyodaProofs/GenAgree*.lean are built against the current source, not against the committed snapshot.
+"$PY" "$here/tools/py2lean.py" || { echo "setup: py2lean could not translate the current source (see above); the committed snapshot lean/PyodaGen is kept, ./check reports the broken tie" >&2; }
 cd "$here/lean"
 lake build
 for d in $(sed -n 's/^name = "\(drv_[a-z0-9_]*\)"$/\1/p' lakefile.toml); do
